@@ -371,6 +371,46 @@ func canonEncode(in []byte) (body []byte, maxCodeLen int) {
 	return z.out, z.maxCodeLen
 }
 
+// canonTok is one LZ77 token: a literal byte (length 0) or a match of length 3..60 at position code 0..2047
+// (distance - 1 from the write position, as LZHUF.C's EncodePosition takes it).
+type canonTok struct {
+	lit    byte
+	length int
+	pos    int
+}
+
+// canonEncodeTokens writes ANY token sequence with the canonical adaptive Huffman coder - including
+// sequences no LZ encoder would ever choose (a match as the very first token, matches reaching into the
+// initial window, maximal distances). Returns the body and the number of bytes the tokens decode to.
+func canonEncodeTokens(toks []canonTok) (body []byte, size int) {
+	z := &canon{}
+	z.startHuff()
+	for _, t := range toks {
+		if t.length == 0 {
+			z.encodeChar(int(t.lit))
+			size++
+		} else {
+			z.encodeChar(255 - cThreshold + t.length)
+			z.encodePosition(t.pos)
+			size += t.length
+		}
+	}
+	if z.putlen > 0 {
+		z.out = append(z.out, byte(z.putbuf>>8))
+	}
+	return z.out, size
+}
+
+// canonStreamOf frames a body: [crc16] size body.
+func canonStreamOf(crc bool, body []byte, size int) []byte {
+	s := append(le32b(size), body...)
+	if crc {
+		sum := crc16Xmodem(s)
+		s = append([]byte{byte(sum), byte(sum >> 8)}, s...)
+	}
+	return s
+}
+
 func (z *canon) getBit() int {
 	for z.getlen <= 8 {
 		i := 0
